@@ -68,7 +68,7 @@ class _CachePlan(faultfs.Plan):
         self.fired_what = None
 
     def hit(self, what, fd=None, data=None, path=None):
-        if what in ("open-w", "write") or (what == "open-r" and path and os.path.basename(path) == self.base):
+        if (what == "write") if self.mode == "short" else (what in ("open-w", "write") or (what == "open-r" and path and os.path.basename(path) == self.base)):
             if self.e == self.k:
                 self.site = self.n
                 self.fired_what = what
@@ -301,7 +301,7 @@ class C19(Engine):
         self.V.append({"clause": clause, "msg": f"step {self.step}: {msg}", "sig": sig})
 
     # ------------------------------------------------------------------ one judged run
-    def _target(self, kind, i=0, v=1, mode="exec"):
+    def _target(self, kind, i=0, v=1, mode="exec", strict=False):
         """-> (key, cache file, runner(glb), reference runner(glb), mode, source description)"""
         cc = self.cc
         ex = self.XSH.execer
@@ -312,7 +312,9 @@ class C19(Engine):
             return kind, cf, (lambda glb: cc.run_script_with_cache(path, ex, glb=glb, loc=None, mode="exec")), "exec"
         code = CODES[i].format(v=v)
         # which file holds the entry of (code, mode) is learnt from what the real code writes (see _run)
-        cf = self.cfmap.get((code, mode)) or self.cfmap.get((code, "single" if mode == "exec" else "exec"))
+        cf = self.cfmap.get((code, mode))
+        if cf is None and not strict:
+            cf = self.cfmap.get((code, "single" if mode == "exec" else "exec"))  # (entries may be shared between modes)
         return ("code", code), cf, (lambda glb: cc.run_code_with_cache(code, "<string>", ex, glb=glb, loc=None, mode=mode)), mode
 
     def _run(self, kind, i=0, v=1, mode="exec", plan=None, label=None):
@@ -400,6 +402,8 @@ class C19(Engine):
                         dim = "rebind"
                     elif ent.get("mode") != mode:
                         dim = "mode"
+                if dim == "rebind" and not obs["raised"]:
+                    clause = "same.as_uncached"  # the entry was used, the fault (if any) changed nothing about that
                 self._viol(
                     clause,
                     f"{label or 'run'} {key!r} (cache {'on' if on else 'off'}, mode {mode}, entry state {state}{', injected ' + plan.mode + ' at ' + str(plan.fired_what) + ' errno ' + str(plan.err) if plan and fired else ''}) differs from the uncached run in {diff}: "
@@ -429,11 +433,11 @@ class C19(Engine):
     # ------------------------------------------------------------------ damage
     def _damage(self, op):
         kind = op["target"]
-        key, cf, runner, mode = self._target(kind, op["i"], op["v"], "exec")
+        key, cf, runner, mode = self._target(kind, op["i"], op["v"], "exec", strict=True)
         if cf is None or not os.path.isfile(cf) or not self._intact(cf):
-            # make sure there is an entry to damage
+            # make sure there is an entry (of THIS mode) to damage
             self._run(kind, op["i"], op["v"], "exec", label="prime")
-            key, cf, runner, mode = self._target(kind, op["i"], op["v"], "exec")
+            key, cf, runner, mode = self._target(kind, op["i"], op["v"], "exec", strict=True)
             if cf is None or not os.path.isfile(cf) or not self._intact(cf):
                 return
         what = op["what"]
@@ -459,7 +463,11 @@ class C19(Engine):
             p["truncation_runs"] += 1
             self._run(kind, op["i"], op["v"], "exec", label=f"trunc@{n}/{len(data)}")
         elif what == "trunc_all":
-            complete = kind == "py" or (kind == "code" and len(data) < 400) or self.full_trunc
+            # (.py entries recompile in microseconds; .xsh / code entries go through the xonsh parser: complete enumeration only
+            #  for small entries and at most twice per case, so that one run stays far below the per-run watchdog)
+            complete = kind == "py" or (kind == "code" and len(data) < 400) or (self.full_trunc and len(data) <= 900 and self.n_full_xsh < 2)
+            if complete and kind != "py":
+                self.n_full_xsh += 1
             if complete:
                 lengths = range(len(data))
                 p["truncation_complete_enumerations"] += 1
@@ -610,6 +618,7 @@ class C19(Engine):
         self.trace = []
         self.nontrivial = False
         self.nruns = 0
+        self.n_full_xsh = 0
         self.step = -1
         self._write_src("xsh", case["body0"][0], 1)
         self._write_src("py", case["body0"][1], 1)
@@ -675,10 +684,10 @@ class C19(Engine):
                     self._damage(op)
                 elif k in ("fail_next", "crash_next"):
                     kind = op["target"]
-                    key, cf, runner, mode = self._target(kind, op["i"], 1, "exec")
+                    key, cf, runner, mode = self._target(kind, op["i"], 1, "exec", strict=True)
                     if cf is None:
                         self._run(kind, op["i"], 1, "exec", label="prime")
-                        key, cf, runner, mode = self._target(kind, op["i"], 1, "exec")
+                        key, cf, runner, mode = self._target(kind, op["i"], 1, "exec", strict=True)
                         if cf is None:
                             continue
                     site = int(op["sitefrac"] * 3)
